@@ -90,6 +90,8 @@ PathsFrom(hp, cur, prefix, d) ==
                    ELSE UNION {PathsFrom(hp, hp[cur.v].items[j].val, Append(prefix, SelOf(hp[cur.v], j)), d - 1)
                                : j \in 1..Len(hp[cur.v].items)})
 Slots == UNION {PathsFrom(heap, root[r], <<r>>, MaxDepth) : r \in 1..NR}
+\* membership in Slots without building the set (used by the actions; trace validation calls them with logged paths)
+IsSlot(p) == Len(p) \in 1..(MaxDepth + 1) /\ p[1] \in 1..NR /\ Resolvable(heap, root, p)
 \* nodes reachable from a value (including its own node)
 RECURSIVE Reach(_, _)
 Reach(hp, x) == IF ~IsRef(x) THEN {}
@@ -161,7 +163,7 @@ DecText(n) == IF n < 0 THEN <<45>> \o DigitsOf(-n) ELSE DigitsOf(n)
 HalfText(h) == IF h % 2 = 0 THEN DecText(h \div 2)
                ELSE (IF h < 0 THEN <<45>> ELSE <<>>) \o DigitsOf((IF h < 0 THEN -h ELSE h) \div 2) \o <<46, 53>>
 \* object keys: "a", "b", and a key longer than String's inline storage
-KeyTab == << <<97>>, <<98>>, <<99,50,51,52,53,54,55,56,57,48,49,50,51,52,53,54,55,56,57>> >>
+KeyTab == << <<97>>, <<98>>, <<99,50,51,52,53,54,55,56,57,48,49,50,51,52,53,54,55,56,57>>, <<100>>, <<101>>, <<102>>, <<103>>, <<104>> >>
 KeyText(k) == KeyTab[k]
 RECURSIVE TextOf(_, _), JoinItems(_, _, _, _)
 TextOf(hp, x) ==
@@ -196,14 +198,14 @@ InsKey(items, k, x) == LET lo == SelectSeq(items, LAMBDA it : it.key < k)
 
 (* typed assignment: slot = number / bool / string / NUL / Var() *)
 AssignScalar(p, x) ==
-    /\ p \in Slots /\ x \in Scalars
+    /\ IsSlot(p) /\ x \in Scalars
     /\ Commit(Store(heap, root, p, x), [op |-> "assignScalar", p |-> p, val |-> x], {})
 
 (* slot = other slot (Var::operator=(const Var&)), including q below p; not when it would close a cycle *)
 WouldCycle(hp, rt, p, x) == IsRef(x) /\ Len(p) > 1 /\ HolderOf(hp, rt, p) \in Reach(hp, x)
 Below(p, q) == Len(q) > Len(p) /\ SubSeq(q, 1, Len(p)) = p
 AssignFrom(p, q) ==
-    /\ p \in Slots /\ q \in Slots
+    /\ IsSlot(p) /\ IsSlot(q)
     /\ LET x == SlotVal(heap, root, q) IN
        /\ ~WouldCycle(heap, root, p, x)
        /\ Commit(Store(Retain(heap, x), root, p, x), [op |-> "assignFrom", p |-> p, q |-> q],
@@ -211,7 +213,7 @@ AssignFrom(p, q) ==
 
 (* slot = Var(Array<Var>) / Var(Dic<Var>) / Var(Var::ARRAY) / Var(Var::OBJ): shape 0 [], 1 {}, 2 [1,2,3], 3 {a:1,b:2,c:3} *)
 AssignNew(p, shape) ==
-    /\ p \in Slots /\ FreeIds(heap) # {}
+    /\ IsSlot(p) /\ FreeIds(heap) # {}
     /\ LET items == CASE shape = 0 -> <<>> [] shape = 1 -> <<>>
                       [] shape = 2 -> [j \in 1..3 |-> Item(0, Val("int", j))]
                       [] shape = 3 -> [j \in 1..3 |-> Item(j, Val("int", j))]
@@ -220,7 +222,7 @@ AssignNew(p, shape) ==
 
 (* non-const operator[](int): NONE becomes an array of i+1 unset elements, an array is resized when i is beyond its end *)
 IndexInt(p, i) ==
-    /\ p \in Slots /\ i < MaxItems
+    /\ IsSlot(p) /\ i < MaxItems
     /\ LET x == SlotVal(heap, root, p) IN
        \/ /\ x.t = "none" /\ FreeIds(heap) # {}
           /\ LET a == Alloc(heap, "arr", NoneItems(i + 1)) IN
@@ -233,7 +235,7 @@ IndexInt(p, i) ==
 
 (* non-const operator[](key): NONE becomes an object, a missing key is inserted unset *)
 IndexKey(p, k) ==
-    /\ p \in Slots
+    /\ IsSlot(p)
     /\ LET x == SlotVal(heap, root, p) IN
        \/ /\ x.t = "none" /\ FreeIds(heap) # {}
           /\ LET a == Alloc(heap, "obj", <<Item(k, NoneV)>>) IN
@@ -256,20 +258,20 @@ AppendTo(p, y, rec, extra) ==
                  extra \cup SharedGrow(x, TRUE))
     \/ /\ x.t \notin {"none", "ref"} \/ Kind(heap, x) = "obj"
        /\ Commit([hp |-> heap, rt |-> root], rec, extra)
-AppendScalar(p, y) == /\ p \in Slots /\ y \in Scalars
+AppendScalar(p, y) == /\ IsSlot(p) /\ y \in Scalars
                       /\ AppendTo(p, y, [op |-> "appendScalar", p |-> p, val |-> y], {})
 \* the same slot reached by two paths (p itself, or through a shared container)
 SameSlot(hp, rt, p, q) == IF Len(p) = 1 \/ Len(q) = 1 THEN p = q
                           ELSE /\ HolderOf(hp, rt, p) = HolderOf(hp, rt, q)
                                /\ Pos(hp[HolderOf(hp, rt, p)], p[Len(p)]) = Pos(hp[HolderOf(hp, rt, q)], q[Len(q)])
 \* x << x: an array would contain itself, and a NONE Var turns into an array holding itself - not generated
-AppendFrom(p, q) == /\ p \in Slots /\ q \in Slots /\ ~SameSlot(heap, root, p, q)
+AppendFrom(p, q) == /\ IsSlot(p) /\ IsSlot(q) /\ ~SameSlot(heap, root, p, q)
                     /\ AppendTo(p, SlotVal(heap, root, q), [op |-> "appendFrom", p |-> p, q |-> q],
                                 IF Below(p, q) THEN {"AliasElem"} ELSE {})
 
 (* resize(n): NONE becomes an array of n unset elements; an array is cut or padded *)
 Resize(p, n) ==
-    /\ p \in Slots /\ n <= MaxItems
+    /\ IsSlot(p) /\ n <= MaxItems
     /\ LET x == SlotVal(heap, root, p) IN
        \/ /\ x.t = "none" /\ FreeIds(heap) # {}
           /\ LET a == Alloc(heap, "arr", NoneItems(n)) IN
@@ -283,7 +285,7 @@ Resize(p, n) ==
 
 (* clear(): empties an array or an object *)
 Clear(p) ==
-    /\ p \in Slots
+    /\ IsSlot(p)
     /\ LET x == SlotVal(heap, root, p) IN
        /\ IsRef(x)
        /\ Commit([hp |-> ReleaseItems([heap EXCEPT ![x.v].items = <<>>], heap[x.v].items, 1), rt |-> root],
@@ -291,7 +293,7 @@ Clear(p) ==
 
 (* removeAt(i) on arrays (out of range: nothing happens), remove(key) on objects *)
 RemoveIdx(p, i) ==
-    /\ p \in Slots /\ i <= MaxItems
+    /\ IsSlot(p) /\ i <= MaxItems
     /\ LET x == SlotVal(heap, root, p) IN
        /\ Kind(heap, x) = "arr"
        /\ LET its == heap[x.v].items IN
@@ -300,7 +302,7 @@ RemoveIdx(p, i) ==
                        rt |-> root], [op |-> "removeAt", p |-> p, i |-> i], {})
           ELSE Commit([hp |-> heap, rt |-> root], [op |-> "removeAt", p |-> p, i |-> i], {})
 RemoveKey(p, k) ==
-    /\ p \in Slots
+    /\ IsSlot(p)
     /\ LET x == SlotVal(heap, root, p) IN
        /\ Kind(heap, x) = "obj"
        /\ LET its == heap[x.v].items
@@ -325,7 +327,7 @@ ExtendItems(hp, n, src, i) ==
          ExtendItems(hp2, n, src, i + 1)
 NewKeys(hp, n, src) == Cardinality({src[i].key : i \in {j \in 1..Len(src) : src[j].val.t # "none" /\ Pos(hp[n], -(src[j].key)) = 0}})
 Extend(p, q) ==
-    /\ p \in Slots /\ q \in Slots
+    /\ IsSlot(p) /\ IsSlot(q)
     /\ LET x == SlotVal(heap, root, p)
            y == SlotVal(heap, root, q) IN
        /\ Kind(heap, y) = "obj"
@@ -345,7 +347,7 @@ Extend(p, q) ==
 
 (* root r = q.clone() *)
 Clone(r, q) ==
-    /\ r \in 1..NR /\ q \in Slots
+    /\ r \in 1..NR /\ IsSlot(q)
     /\ LET y == SlotVal(heap, root, q) IN
        /\ Cardinality(FreeIds(heap)) >= NodeCount(heap, y)
        /\ LET c == CloneVal(heap, y) IN
@@ -410,6 +412,12 @@ ObsVal(hp, x) ==
     IF ~IsRef(x) THEN [t |-> x.t, v |-> x.v, f |-> Facts(hp, x), n |-> 0, rc |-> 0, items |-> <<>>]
     ELSE [t |-> hp[x.v].k, v |-> 0, f |-> Facts(hp, x), n |-> x.v, rc |-> hp[x.v].rc,
           items |-> [j \in 1..Len(hp[x.v].items) |-> [key |-> hp[x.v].items[j].key, val |-> ObsVal(hp, hp[x.v].items[j].val)]]]
+\* the same tree without node identities (what a recorder can see)
+RECURSIVE CheckTree(_, _)
+CheckTree(hp, x) ==
+    IF ~IsRef(x) THEN [t |-> x.t, v |-> x.v, rc |-> 0, items |-> <<>>]
+    ELSE [t |-> hp[x.v].k, v |-> 0, rc |-> hp[x.v].rc,
+          items |-> [j \in 1..Len(hp[x.v].items) |-> [key |-> hp[x.v].items[j].key, val |-> CheckTree(hp, hp[x.v].items[j].val)]]]
 ObsRoots(hp, rt) == [r \in 1..NR |-> ObsVal(hp, rt[r])]
 EqMatrix(hp, rt) == [i \in 1..(NR * NR) |-> LET a == ((i - 1) \div NR) + 1 b == ((i - 1) % NR) + 1 IN
                         [a |-> a, b |-> b, eq |-> EqR(hp, rt[a], rt[b])]]
